@@ -317,6 +317,7 @@ fn mutate_at(n: &Node, target: &mut isize, rng: &mut Rng) -> Node {
 
 #[derive(Default, Serialize)]
 struct Stats {
+    after: usize,
     cases: usize,
     schemas: usize,
     records: usize,
@@ -383,6 +384,44 @@ pub fn run(args: &Args) -> i32 {
             stats.samples.push(serde_json::json!({"id": format!("r{i}"), "schema": schema, "yaml": text}));
         }
         one(format!("r{i}"), &schema, &text, &doc, &mut w, &mut stats);
+        // the document after this one in a stream: whatever the first document did (failed early, late, on a look-ahead,
+        // or was read), the iterator's next item is filled from the second document's own nodes. The record describes the
+        // second document alone; its observations are the items that follow the first.
+        if nmut > 0 && i % 3 == 1 && matches!(node, Node::Seq { .. } | Node::Map { .. }) {
+            let second = matching(&schema, &mut rng);
+            let mut doc2 = vec![];
+            events_from_node(&second, &mut doc2);
+            let text2 = if rng.chance(1, 2) { render_flow(&second, &Names(None)) } else { render_block(&second, &Names(None)) };
+            let null_like = matches!(&second, Node::Scalar { v, q, t, .. } if q == "p" && t.is_empty() && matches!(v.as_str(), "" | "~" | "null" | "Null" | "NULL"));
+            if render_check(&text2, &doc2).is_ok() && !null_like {
+                let stream = format!("---\n{}\n---\n{}\n", text.trim_end(), text2.trim_end());
+                SCHEMA.with(|c| *c.borrow_mut() = Some(schema.clone()));
+                let st = stream.clone();
+                let items = guarded(move || {
+                    let mut rd = std::io::Cursor::new(st.into_bytes());
+                    let mut out = vec![];
+                    for (n, it) in serde_saphyr::read::<_, Dyn>(&mut rd).enumerate() {
+                        if n > 8 {
+                            out.push(N::errc("NONTERMINATING"));
+                            break;
+                        }
+                        out.push(match it {
+                            Ok(Dyn(v)) => v,
+                            Err(e) => errn(&e),
+                        });
+                    }
+                    out
+                })
+                .unwrap_or_else(|p| vec![N::errc(&format!("PANIC:{p}"))]);
+                if !items.is_empty() {
+                    let rest: Vec<N> = items[1..].to_vec();
+                    let first = rest.first().cloned().unwrap_or_else(|| N::errc("no-item-for-the-second-document"));
+                    let multi = if first.is_err() { vec![first.clone()] } else { vec![N::leaf("ok", ""), first.clone()] };
+                    stats.after += 1;
+                    w.put(&Rec { id: format!("r{i}-after"), schema: &schema, yaml: &stream, raw: &doc2, str: first.clone(), wd: first, multi, read: rest });
+                }
+            }
+        }
     }
     stats.records = w.n;
     w.finish();
